@@ -377,7 +377,7 @@ def project(eng, prev_ids):
             sub = sorted((tuple(flat(p)), id(n)) for p, n in node.depth()
                          if tuple(p) != ('w',) and tuple(p) != (INNER,))
             ids[(b, k)] = sub
-            org = 'new'
+            org = ['new']
             for loc, old in prev_ids.items():
                 if old == sub:
                     org = list(loc)
